@@ -59,6 +59,9 @@ var c19BigHash = func() string {
 }()
 
 var c19Corpus = []string{
+	// several spellings of one number, as strings and as numbers
+	`h = {"7": 1, "07": 2, "7.0": 3, 7: 4, "1e1": 5, "10": 6, " 7": 7, "+7": 8, 7.0: 9, "0x7": 10}; hv(string(h)); hv(keys(h)); foreach k, v in h { hv(k); } return len(h);`,
+	`h = {"b": 1, "B": 2, "a": 3, "A": 4, "ß": 5, "SS": 6, "é": 7, "e": 8, "É": 9}; hv(keys(h)); foreach k in keys(h) { hv(k); } return string(h);`,
 	c19BigHash,
 	"x = " + strings.TrimSuffix(strings.SplitN(c19BigHash, "; hv(", 2)[0], "") + "; return len(keys(h)) + len(string(h));",
 	// regular-expression literals with several flags, seen as text
